@@ -2360,17 +2360,33 @@ impl Write for SummaryStream {
          * Look for the last complete pkg_summary(5) record, if there are none
          * then go to the next input.
          */
-        let input_string = match std::str::from_utf8(&self.buf) {
-            Ok(s) => {
-                if let Some(last) = s.rfind("\n\n") {
-                    s.get(0..last + 2).unwrap()
-                } else {
-                    return Ok(input.len());
+        let valid = match std::str::from_utf8(&self.buf) {
+            Ok(s) => s,
+            /*
+             * The buffer may end part way through a multi-byte character if
+             * the input was split there.  That is not an error, the rest of
+             * the character arrives with the next write, so only look at the
+             * valid text before it.
+             */
+            Err(e) if e.error_len().is_none() => {
+                match std::str::from_utf8(&self.buf[0..e.valid_up_to()]) {
+                    Ok(s) => s,
+                    Err(e) => {
+                        return Err(io::Error::new(
+                            io::ErrorKind::InvalidData,
+                            e,
+                        ))
+                    }
                 }
             }
             Err(e) => {
                 return Err(io::Error::new(io::ErrorKind::InvalidData, e))
             }
+        };
+        let input_string = if let Some(last) = valid.rfind("\n\n") {
+            valid.get(0..last + 2).unwrap()
+        } else {
+            return Ok(input.len());
         };
 
         /*
